@@ -15,7 +15,8 @@ RULE = ("seeded scenes: 3-8 frames from two videos of different size, 0-4 animal
         "all permutations of the frame order for <= 4 frames (sampled beyond) x max_instances {None,1,2,3} (top-down) x refinement {None, integral}; reference = one frame per batch. "
         "non-trivial = batch mixing >= 2 different frames of which one is empty or over the max_instances cap; distinct by (model, frame composition, order, batch size, cap)")
 ASSUMPTIONS = ["oracle networks give each animal's centroid a distinct known amplitude so 'highest-scoring' is decidable", "RGB pipeline; size matching on (two video sizes in one batch)",
-               "bottom-up max_instances is applied only while building labelled frames (make_labels=True) and is not covered here"]
+               "the labelled-frame assembly (make_labels=True: bbox re-addition, bottom-up max_instances) runs under a harness-side shim translating the legacy sleap-io keywords; "
+               "if that path cannot run the sub-check is counted inconclusive, never held"]
 SHARDS = {"quick": 8, "thorough": 16}
 N = {"quick": 72, "thorough": 1600}
 BUDGET = {"quick": 110, "thorough": 1700}
@@ -216,10 +217,67 @@ def check(ctx, case):
             n_an = [len([p for p in sf.scene.poses[sf.code_of[k]] if not np.isnan(p).all()]) for k in order]
             if batch >= 2 and len(set(order)) >= 2 and (0 in n_an or (case["max_instances"] and max(n_an) > case["max_instances"])):
                 mixed = True
+        if case["model"] in ("topdown", "bottomup") and case["i"] % 2 == 0:
+            check_labels_assembly(ctx, case, sf, keys, small, ref_path)
     finally:
         shutil.rmtree(sf.dir, ignore_errors=True)
     comp = tuple((fr["video"], fr["n_animals"]) for fr in case["frames"])
     ctx.tick((case["model"], comp, case["max_instances"], case["refinement"], case["stride"]) if mixed else None, sample=small if ctx.evaluations < 3 else None)
+
+
+def check_labels_assembly(ctx, case, sf, keys, small, ref_path):
+    """predict(make_labels=True): the labelled frames must hold the same instances as the raw records
+    (bbox offset re-added for top-down); with max_instances on the bottom-up predictor the kept
+    instances are the highest-scoring ones. Needs the legacy sleap-io keyword shim; if that path
+    cannot run in this environment the sub-check is inconclusive (counted), never held."""
+    from vf import compat
+
+    try:
+        compat.install_legacy_sio()
+        cap = 2 if case["model"] == "bottomup" else case["max_instances"]
+        log = []
+        if case["model"] == "bottomup":
+            mh, mw = max(s_[0] for s_ in case["sizes"]), max(s_[1] for s_ in case["sizes"])
+            raw_pred, _ = e2e.bottomup_predictor(sf, case["stride"], case["stride"], 0.75, max(1.5 * case["stride"], 3.0), 1.0, (mh, mw), 16, 3, case["refinement"], log)
+            lab_pred, _ = e2e.bottomup_predictor(sf, case["stride"], case["stride"], 0.75, max(1.5 * case["stride"], 3.0), 1.0, (mh, mw), 16, 3, case["refinement"], log, max_instances=cap)
+        else:
+            raw_pred, _ = make_pred(case, sf, 3, log)
+            lab_pred, _ = make_pred(case, sf, 3, log)
+        raw = e2e.run(raw_pred, "LabelsReader", sf, labels_path=ref_path)
+        lab_pred.make_pipeline("LabelsReader", ref_path, queue_maxsize=4)
+        labels = lab_pred.predict(make_labels=True)
+    except Exception as e:
+        import traceback
+
+        fr = [f for f in traceback.extract_tb(e.__traceback__) if "/sleap_nn/" in f.filename]
+        if fr and fr[-1].name != "_make_labeled_frames_from_generator":
+            ctx.violation(f"exception:{type(e).__name__}@{fr[-1].name}", f"make_labels=True run ({case['model']}): {type(e).__name__}: {str(e)[:200]}", small)
+        else:
+            ctx.count("labels_assembly_inconclusive")
+        return
+    ctx.count("labels_assembly_runs")
+    n = case["n_nodes"]
+    want = {}
+    for o in raw:
+        if case["model"] == "bottomup":
+            for vi, fi, inst, sc in zip(o["video_idx"], o["frame_idx"], o["pred_instance_peaks"], o["instance_scores"]):
+                P = np.asarray(inst, float).reshape(-1, n, 2)
+                S = np.asarray(sc, float).reshape(-1)
+                order = np.argsort(-S, kind="stable")[:cap]
+                want[(int(vi), int(fi))] = [P[j] for j in order]
+        else:
+            for vi, fi, pk, bb in zip(o["video_idx"], o["frame_idx"], o["pred_instance_peaks"], o["instance_bbox"]):
+                want.setdefault((int(vi), int(fi)), []).append(np.asarray(pk, float) + np.asarray(bb, float).reshape(4, 2)[0])
+    got = {}
+    for lf in labels:
+        key = (labels.videos.index(lf.video), int(lf.frame_idx))
+        got.setdefault(key, []).extend([inst.numpy() for inst in lf.instances])
+    for key in set(want) | set(got):
+        ctx.count("labelled_frames_compared")
+        if not same_sets(want.get(key, []), got.get(key, []), tol=1e-3):
+            k = "cap-keeps-wrong-instances" if case["model"] == "bottomup" and len(want.get(key, [])) == cap else "labelled-frame-differs-from-records"
+            ctx.violation(k, f"{case['model']}: labelled frame {key} holds {len(got.get(key, []))} instances that differ from the raw records "
+                             f"({len(want.get(key, []))} expected{', top-%d by instance score' % cap if case['model'] == 'bottomup' else ''})", small)
 
 
 def finalize(ctx):
